@@ -40,7 +40,13 @@ type c03case struct {
 
 func genC03cfg(rng *prng.R, cfgIdx int) e2eCfg {
 	c := e2eCfg{TargetDB: -1, SenderCount: uint(rng.Pick(1, 2, 3, 1024)), SenderSize: uint64(rng.Pick(1, 64, 65535, 1<<30-1)), Parallel: 2, Metric: true}
-	switch cfgIdx % 8 {
+	switch cfgIdx % 10 {
+	case 8: // a fixed target database together with a database list that excludes that very number on the source
+		c.TargetDB = 0
+		c.DBWhite = []string{"2", "3"}
+	case 9:
+		c.TargetDB = 3
+		c.DBBlack = []string{"3", "1"}
 	case 1:
 		c.TargetDB = rng.Pick(0, 3)
 	case 2:
@@ -388,7 +394,7 @@ func c03(c *wk.Ctx) {
 	if wk.ReplayOne(c, "c03cfg", func(idx int) interface{} { return c03extra{CfgIdx: idx / 100000} }, onDeath) {
 		return
 	}
-	ncfg := c.N(16, 64)
+	ncfg := c.N(20, 60)
 	per := c.N(40, 150)
 	wk.Parallel(ncfg, 16, func(i int) {
 		wk.RunBatch(c, "c03cfg", i*100000, i*100000+per, c03extra{CfgIdx: i}, 40*time.Minute, onDeath)
